@@ -294,13 +294,15 @@ def _lower_once(text, ctr, log, ctx):
         log.append(("R11", orig))
         return text[:a] + repl + text[b:]
     # R11 first: closures handed to rayon become plain blocks / loops before the loops inside them are looked at
-    for ch in find_chains(text, {"for_each", "install"}):
+    for ch in find_chains(text, {"for_each", "install", "spawn"}):
         ms = ch.methods()
         r = None
         if ms[-2:] == ["par_iter_mut", "for_each"]:
             r = _r11_foreach(ch, ctr)
         elif ms and ms[-1] == "install" and ch.segs[-1].kind == "method":
             r = _r11_install(ch, ctr)
+        elif ms and ms[-1] == "spawn" and ch.segs[-1].kind == "method":
+            r = _r11_install(ch, ctr, "vx_pool_spawn")
         if r is not None:
             log.append(("R11", ch.src()))
             return text[:ch.start] + r + text[ch.end:]
@@ -739,13 +741,14 @@ def _r11_foreach(ch, ctr):
     return "/*@R11 par_iter_mut().for_each*/ for %s in &mut %s %s" % (cl[0].strip(), recv, _as_block(cl[1]))
 
 
-def _r11_install(ch, ctr):
-    """POOL.install(move || BODY): runs BODY once inside the pool and returns its result (trusted)"""
+def _r11_install(ch, ctr, prim="vx_pool_install"):
+    """POOL.install(move || BODY): runs BODY once inside the pool and returns its result (trusted);
+    POOL.spawn(move || BODY): runs BODY exactly once, later (trusted)"""
     cl = parse_closure(_arg(ch, ch.segs[-1]))
     if cl is None:
         return None
     recv = ch.prefix_text(len(ch.segs) - 1)
-    return "{ vx_pool_install(%s); %s }" % (recv, _as_block(cl[1]))
+    return "{ %s(%s); %s }" % (prim, recv, _as_block(cl[1]))
 
 
 def _find_entry_idiom(text, ctr):
